@@ -160,8 +160,8 @@ def run(rep, tier, seed, deep=False):
         # table) and FsModel.OsSub: exact error class, exact tree up to entry order; the POSIX model
         # itself is compared with the kernel, the extracted table with the live one
         X.run_os_exact(rep, steps, drv)
-        # `FS.removetree` (inherited by MultiFS / MountFS / FTPFS) normalises its path without validating it
-        # (open finding; FsProofs/BaseWalkLaws.lean removetree_nul_counterexample)
+        # regression of the fixed finding removetree-unvalidated-path (/repo 433aea4): `FS.removetree` (inherited by
+        # MultiFS / MountFS / FTPFS) validates its path like every other method (BaseWalkLaws.removetree_nul_repaired)
         BW.removetree_unvalidated_regression(rep)
         # file objects kept open ACROSS filesystem calls, several handles on one file, files removed / moved /
         # overwritten while open: whole histories against FsModel.Handles (FsProofs/HandleLaws.lean)
